@@ -940,6 +940,12 @@ def index_at(p, label, idx):
             return Poly.atom(a)
         if a[0] == 'fn' and a[1] == 'arange' and len(a) == 3 and a[2] == ('L', label):
             return idx                         # arange(n)[i] == i
+        if a[0] == 'fn' and a[1] == 'argsort' and len(a) == 4 and a[2] == ('L', label) and a[3][0] == 'B' and idx.is_monomial():
+            # argsort(K)[rank(K, n)] is the position in K of the key that equals n (n is taken to be one of the keys)
+            (mx_, cx_), = idx.t.items()
+            if cx_ == 1 and len(mx_) == 1 and mx_[0][1] == 1 and mx_[0][0][0] == 'fn' and mx_[0][0][1] == 'rank' and len(mx_[0][0]) == 4 \
+                    and mx_[0][0][2][0] == 'B' and Poly.from_key(mx_[0][0][2][2]) == relabel(Poly.from_key(a[3][2]), a[3][1], mx_[0][0][2][1]):
+                return Poly.atom(('fn', 'keypos', mx_[0][0][2], mx_[0][0][3]))
         if a[0] == 'fn' and a[1] == 'slice' and len(a) == 7 and a[2] == ('L', label) and a[3][0] == 'B' and a[3][1] != label \
                 and (a[6] == ('C', None) or (a[6][0] == 'P' and Poly.from_key(a[6][1]).is_const() and Poly.from_key(a[6][1]).const_value() > 0)) \
                 and (a[4] == ('C', None) or (a[4][0] == 'P' and Poly.from_key(a[4][1]).is_const() and Poly.from_key(a[4][1]).const_value() >= 0)) \
